@@ -62,8 +62,15 @@ def model_check(chk: Check, quick: bool) -> T.List[T.Dict[str, T.Any]]:
 def _norm_error(text: str, d: str) -> str:
     text = text.replace(d, '<dir>')
     lines = [ln.strip() for ln in text.splitlines() if ln.strip()]
+    where = ''
+    for ln in lines:
+        m = re.match(r'^File ".*?([\w.]+)\.py", line \d+, in (\w+)', ln)
+        if m:
+            where = f' in {m.group(1)}.{m.group(2)}'
     for ln in reversed(lines):
-        if re.match(r'^(\w+\.)*\w*(Error|Exception)\b', ln) or 'ERROR:' in ln:
+        if re.match(r'^(\w+\.)*\w*(Error|Exception)\b', ln):
+            return re.sub(r'\s+', ' ', ln)[:300] + where
+        if 'ERROR:' in ln:
             return re.sub(r'\s+', ' ', ln)[:300]
     return re.sub(r'\s+', ' ', lines[-1] if lines else '')[:300]
 
@@ -165,11 +172,11 @@ def judge(chk: Check, cases: T.List[T.Dict[str, T.Any]], label: str, chunk: int 
 
 
 def _unit_kind(p: T.Dict[str, T.Any], label: str) -> T.Tuple[str, T.Optional[int]]:
-    half, _, name = label.partition(':')
-    for i, t in enumerate(p['targets'], 1):
-        if t['name'] == name:
-            return half, i
-    return half, None
+    """label = <half>:<name>#<index of the target in p>"""
+    m = re.match(r'^(\w+):.*#(\d+)$', label, re.S)
+    if not m:
+        return label.partition(':')[0], None
+    return m.group(1), int(m.group(2))
 
 
 def _relation(p: T.Dict[str, T.Any], ui: T.Optional[int], vi: T.Optional[int]) -> str:
